@@ -175,6 +175,26 @@ CASES = [
      lambda d: accumulate(d, lambda a, b: a + b), COLLS),
     ('accumulate/seed', '$.accumulate($1 + $2, 5)',
      lambda d: accumulate(d, lambda a, b: a + b, 5), COLLS),
+    # merging a dict with an EQUAL dict still merges: lists are united
+    # (duplicates dropped), custom mergers are applied
+    ('mergeWith/equal', 'let(x => $.toList()) -> '
+     'dict(a => $x, b => dict(c => $x))'
+     '.mergeWith(dict(a => $x, b => dict(c => $x)))',
+     lambda d: {'a': distinct(list(d) + list(d)),
+                'b': {'c': distinct(list(d) + list(d))}},
+     [c for c in COLLS]),
+    ('mergeWith/equal/custom',
+     'let(x => $.toList()) -> '
+     'dict(a => $x).mergeWith(dict(a => $x), $1 + $2)',
+     lambda d: {'a': list(d) + list(d)}, COLLS),
+    # results are values: usable as set members, dict keys, distinct keys
+    ('groupBy.distinct', '$.groupBy($ mod 2).distinct()',
+     lambda d: [[k, [x for x in d if x % 2 == k]]
+                for k in distinct([x % 2 for x in d])], COLLS),
+    ('insert.toSet', '[$.toList().insert(0, 9)].toSet().len()',
+     lambda d: 1, COLLS),
+    ('toDict.toSet', '[$.toDict($, 1)].toSet().len()',
+     lambda d: 1, COLLS),
     # a null seed / a null first element is a value like any other
     ('accumulate/null-seed', '$.accumulate([$1, $2], null)',
      lambda d: accumulate(d, lambda a, b: [a, b], None), COLLS),
